@@ -76,6 +76,21 @@ def r01_1_filter(ctx, m, func, rule):
         if outcomes != {want}:
             bad = {"ordering": cc.show_order(env), "segment_kept": sorted(outcomes), "overlaps": want}
             break
+    # leaving the scan early is sound only once the segment starts at or beyond the query end (the list is SO-sorted):
+    # on every ordering consistent with a `break` path, s >= qe must hold
+    for p in site.paths:
+        if p.term != "break":
+            continue
+        unjust = None
+        n_cons = 0
+        for env, scale in cc.interval_envs():
+            if ordtab.consistent_paths([p], env, site.atom_of, scale):
+                n_cons += 1
+                if not env["s"] >= env["qe"]:
+                    unjust = cc.show_order(env)
+        if unjust is not None or n_cons == 0:
+            ctx.violated(rule, func.where(site.loop), "the scan over the search window stops early (`break`) at a segment that does not start at or beyond the query end: the segments that follow in the window are never examined" + (f" (possible under {unjust})" if unjust else ""), key_of(func, "overlap-early-break"), path=p.show())
+            break
     # the atoms must actually have been recognised: a filter that never mentions s/e/qs/qe is not a filter
     used = set()
     for p in site.paths:
@@ -315,7 +330,14 @@ def r01_5(ctx, m):
     iv = norm(loop.target)
     it = loop.iter
     slice_form = isinstance(it, ast.Subscript) and isinstance(it.slice, ast.Slice) and isinstance(loop.target, ast.Tuple) and len(loop.target.elts) == 2
-    if slice_form:
+    zip_form = isinstance(it, ast.Call) and norm(it.func) == "zip" and len(it.args) == 2 and norm(it.args[1]) == f"{norm(it.args[0])}[1:]" and isinstance(loop.target, ast.Tuple) and len(loop.target.elts) == 2 and all(isinstance(e, ast.Tuple) and len(e.elts) == 2 for e in loop.target.elts)
+    if zip_form:
+        # for (prev, prev_orient), (node, orient) in zip(L, L[1:]): the second pair is the next input node
+        src_list = norm(it.args[0])
+        mm = norm(it)
+        ok_range = True
+        nxt = [norm(e) for e in loop.target.elts[1].elts]
+    elif slice_form:
         # for node, orient in L[1:]
         src_list = norm(it.value)
         mm = norm(it)
